@@ -78,15 +78,16 @@ Theorem C04_rx_recv_next : forall (S : nat -> Z -> Z) (F : nat -> option Z),
 Proof. exact rx_recv_next. Qed.
 Print Assumptions C04_rx_recv_next.
 
-(* no ring cell at or beyond the right edge advertised last (last ACK number + (last window <<
-   shift), clamped to RCV.NXT as the source does) is changed by any segment *)
+(* no storage cell of the ring at or beyond the right edge advertised last (last ACK number +
+   (last window << shift), clamped to RCV.NXT as the source does; cells addressed through the read
+   pointer before the segment) is written by any segment *)
 Theorem C04_rx_never_beyond_advertised : forall (S : nat -> Z -> Z) (F : nat -> option Z),
   (forall e f, F e = Some f -> 0 <= f) ->
   forall s g cx ip r s' out tags,
   rx_reach S F s g -> ev_ok S F g s (EvSegment ip r) ->
   tcp_step cx s (EvSegment ip r) = Ok (s', out, tags) ->
   forall i, rb_len (s_rx_buffer s) + adv_width s <= i < rb_cap (s_rx_buffer s) ->
-            rb_cell (s_rx_buffer s') i = rb_cell (s_rx_buffer s) i.
+            znth (rb_store (s_rx_buffer s')) (rb_get_idx (s_rx_buffer s) i) = rb_cell (s_rx_buffer s) i.
 Proof. exact rx_never_beyond_advertised. Qed.
 Print Assumptions C04_rx_never_beyond_advertised.
 
